@@ -8,7 +8,7 @@ CONSTANTS
   PruneBatch = 1
   L2PerPrune = 1
   MinAge = FALSE
-  MaxSteps = 5
+  MaxSteps = 6
   EnableRevert = TRUE
   EnableInterrupts = TRUE
   FixPruneAtomicFloor = TRUE
